@@ -45,6 +45,10 @@ def _merge(parts):
         m['kinds'].update(p.get('kinds', {}))
         if p.get('harness_tb') and not m['harness_tb']:
             m['harness_tb'] = p['harness_tb']
+        for fn, c in (p.get('cover') or {}).items():
+            e = m.setdefault('cover', {}).setdefault(fn, {'executed': set(), 'total': set()})
+            e['executed'].update(c['executed'])
+            e['total'].update(c['total'])
     return m
 
 
@@ -197,6 +201,12 @@ def run_check(prop, tier, seed, scale=1.0, nworkers=None, quiet=False):
         'wall_s': round(wall, 2),
         'violations': int(sum(unknown_counts.values())),
     }
+    ac = {}
+    for fn, c in sorted((m.get('cover') or {}).items()):
+        miss = sorted(c['total'] - c['executed'])
+        ac[fn] = {'executed_lines': len(c['executed']), 'total_lines': len(c['total']),
+                  'never_executed_lines': miss[:40]}
+    ev['coverage']['anchor_coverage'] = ac
     extra = campaign.extra_evidence(prop, m)
     ev['coverage'].update(extra)
     os.makedirs(EVIDENCE, exist_ok=True)
